@@ -30,6 +30,143 @@ Import ListNotations.
 
 
 # ---------------------------------------------------------------------------------------
+# tie to the source: pyhf/infer/test_statistics.py translated to coq/gen/TestStatGen.v on every run
+ENVP = ['data', 'pdf', 'init_pars', 'par_bounds', 'fixed_params']          # what the hand model bundles as `e : Env`
+GEN_PARAMS = ('(N : Num) (Env : Type) (fit : Env -> list (V N) * V N) (fixed_poi_fit : V N -> Env -> list (V N) * V N) '
+              '(poi_index : Env -> option nat) (poi_lower : Env -> V N)')
+GEN_ARGS = 'N Env fit fixed_poi_fit poi_index poi_lower'
+WARN_CON = [('qmu test statistic used', 'WQmuBoundedAtZero'), ('qmu_tilde test statistic used', 'WQmuTildeNotBoundedAtZero'),
+            ('tmu test statistic used', 'WTmuBoundedAtZero'), ('tmu_tilde test statistic used', 'WTmuTildeNotBoundedAtZero'),
+            ('q0 test statistic only used', 'WQ0MuNonzero')]
+GEN_HEADER = ('From Coq Require Import ZArith Bool List.\nRequire Import PV.Num PV.TestStat.\nImport ListNotations.\nLocal Open Scope list_scope.\n'
+              '(* GENERATED on every run by harness/props/c06.py:extract from $VERIF_REPO/src/pyhf/infer/test_statistics.py - do not edit.\n'
+              '   External calls are the Section variables of PV.TestStat: fit e / fixed_poi_fit mu e stand for the calls with\n'
+              '   (data, pdf, init_pars, par_bounds, fixed_params) forwarded unchanged and return_fitted_val=True; poi_index e is\n'
+              '   pdf.config.poi_index, poi_lower e is par_bounds[pdf.config.poi_index][0]. gen_f is f(.., return_fitted_pars=True),\n'
+              '   gen_f_value is f(.., return_fitted_pars=False). *)\n')
+
+
+def _tie_exec(tree, mle_tree):
+    from harness import facts
+    from harness.props import tie_translate as tt
+    STAT = tt.PROD(tt.NUM, tt.PROD(tt.LIST(tt.NUM), tt.LIST(tt.NUM)))
+
+    class X(tt.Exec):
+        def __init__(self):
+            super().__init__()
+            self.patterns = [(tt.pattern('pdf.config.poi_index'), tt.T('(poi_index e)', tt.OPTION(tt.NAT))),
+                             (tt.pattern('par_bounds[pdf.config.poi_index][0]'), tt.T('(poi_lower e)', tt.NUM))]
+
+        def global_name(self, name, st):
+            if name in ('get_backend', 'float', 'log', 'fit', 'fixed_poi_fit'):
+                return tt.Ext(name)
+            if name in ('_tmu_like', '_qmu_like'):
+                return tt.Ext('internal', name)
+            raise tt.TB('unknown name %s' % name)
+
+        def attr_ext(self, base, attr, node, st):
+            if isinstance(base, tt.Ext) and base.tag == 'tensorlib':
+                return tt.Ext('tensorlib.' + attr)
+            raise tt.TB('attribute .%s of %r (line %d)' % (attr, base, node.lineno))
+
+        def warning(self, msg, node):
+            for key, con in WARN_CON:
+                if msg.startswith(key):
+                    return con
+            raise tt.TB('unknown warning text %r (line %d)' % (msg[:40], node.lineno))
+
+        def forwarded(self, bound, what, node):
+            for p in ENVP:
+                v = bound.get(p)
+                if not (isinstance(v, tt.Ext) and v.tag == 'env:' + p):
+                    raise tt.TB('%s (line %d) does not receive the caller\'s %s as its %s' % (what, node.lineno, p, p))
+
+        def call_ext(self, f, args, kwargs, node, st):
+            if f.tag in ('fit', 'fixed_poi_fit'):
+                bound, params, extra = tt.bind_call(facts.find_func(mle_tree, f.tag), args, kwargs, what='call of ' + f.tag)
+                self.forwarded(bound, 'call of ' + f.tag, node)
+                if list(extra) != ['return_fitted_val'] or not (isinstance(extra['return_fitted_val'], tt.S) and extra['return_fitted_val'].v is True):
+                    raise tt.TB('call of %s (line %d): keyword arguments are not exactly return_fitted_val=True' % (f.tag, node.lineno))
+                if set(bound) - set(ENVP) - {'poi_val'}:
+                    raise tt.TB('call of %s (line %d): unexpected arguments' % (f.tag, node.lineno))
+                ty = tt.PROD(tt.LIST(tt.NUM), tt.NUM)
+                if f.tag == 'fit':
+                    return tt.T('(fit e)', ty)
+                return tt.T('(fixed_poi_fit %s e)' % self.num(bound.get('poi_val'), node), ty)
+            if f.tag == 'internal':
+                bound, params, extra = tt.bind_call(facts.find_func(tree, f.data), args, kwargs, what='call of ' + f.data)
+                self.forwarded(bound, 'call of ' + f.data, node)
+                rfp = bound.get('return_fitted_pars', tt.S(False))
+                if not (isinstance(rfp, tt.S) and isinstance(rfp.v, bool)) or set(bound) - set(ENVP) - {'mu', 'return_fitted_pars'} or extra:
+                    raise tt.TB('call of %s (line %d): arguments outside the translator' % (f.data, node.lineno))
+                mu = self.num(bound.get('mu'), node)
+                name = 'gen' + f.data                        # _tmu_like -> gen_tmu_like
+                if rfp.v:
+                    return tt.T('(%s %s %s e)' % (name, GEN_ARGS, mu), STAT)
+                return tt.T('(%s_value %s %s e)' % (name, GEN_ARGS, mu), tt.NUM)
+            raise tt.TB('call of %r (line %d)' % (f, node.lineno))
+    return X(), STAT
+
+
+def generate():
+    """returns (Coq text of gen/TestStatGen.v, info).  Raises facts.TieBroken."""
+    import ast
+    from harness import facts
+    from harness.props import tie_translate as tt
+    rel = 'infer/test_statistics.py'
+    tree, path = facts.parse(rel)
+    mle_tree, _ = facts.parse('infer/mle.py')
+    text = GEN_HEADER
+    info = {}
+    for name in ['_tmu_like', '_qmu_like', 'qmu', 'qmu_tilde', 'tmu', 'tmu_tilde', 'q0']:
+        fn = facts.find_func(tree, name)
+        params = [a.arg for a in fn.args.args]
+        dfl = fn.args.defaults
+        if (params != ['mu'] + ENVP + ['return_fitted_pars'] or fn.args.vararg or fn.args.kwarg or fn.args.kwonlyargs or len(dfl) != 1
+                or not (isinstance(dfl[0], ast.Constant) and dfl[0].value is False)):
+            raise tt.TB('%s: signature is not (mu, %s, return_fitted_pars=False)' % (name, ', '.join(ENVP)))
+        text += '\n' + tt.source_comment(rel, fn, path)
+        for rfp in (True, False):
+            x, STAT = _tie_exec(tree, mle_tree)
+            env = {'mu': tt.T('mu', tt.NUM), 'return_fitted_pars': tt.S(rfp)}
+            env.update({p: tt.Ext('env:' + p) for p in ENVP})
+            o = x.block(fn.body, tt.St(env=env))
+            vty = 'V N * (list (V N) * list (V N))' if rfp else 'V N'
+
+            def value(v):
+                t = x.as_term(v)
+                if t.ty != (STAT if rfp else tt.NUM):
+                    raise tt.TB('%s returns a %r (return_fitted_pars=%r)' % (name, t.ty, rfp))
+                return t.s
+            gname = ('gen' + name if name.startswith('_') else 'gen_' + name) + ('' if rfp else '_value')
+            if name.startswith('_'):
+                o = tt.only_ret(o, name)
+                if o.st.warns:
+                    raise tt.TB('%s warns' % name)
+                body, rty = value(o.val), vty
+            else:
+                def leaf(l):
+                    if isinstance(l, tt.Exc):
+                        if l.name != 'UnspecifiedPOI':
+                            raise tt.TB('%s raises %s' % (name, l.name))
+                        return '(inl EUnspecifiedPOI)'
+                    if isinstance(l, tt.Ret):
+                        return '(inr (%s, %s))' % (tt.render_warns(l.st.warns), value(l.val))
+                    raise tt.TB('%s can end without a return' % name)
+                body, rty = tt.render(o, leaf), 'tserr + (list tswarn * (%s))' % vty
+            text += 'Definition %s %s (mu : V N) (e : Env) : %s :=\n  %s.\n' % (gname, GEN_PARAMS, rty, body)
+            info[gname] = len(body)
+    return text, info
+
+
+def extract(ctx):
+    from harness import facts
+    text, info = generate()
+    core.write_if_changed(os.path.join(core.COQ, 'gen', 'TestStatGen.v'), text)
+    return dict(file='coq/gen/TestStatGen.v', definitions=sorted(info))
+
+
+# ---------------------------------------------------------------------------------------
 def fl(tb, x):
     v = tb.tolist(x) if not isinstance(x, (int, float)) else x
     while isinstance(v, list):
